@@ -215,6 +215,10 @@ fn run(ctx: &Ctx) -> Run {
         }
         let n = ctx.n(12_000_000, 400_000_000) / threads as u64;
         for i in 0..n {
+            // error paths must leave nothing behind: now and then a few rejected calls precede the judged ones
+            if rng.below(4096) == 0 {
+                crate::orc::failed_call_history(&mut rng);
+            }
             if i % 50_000 == 0 {
                 // the exhaustive relabelling check again, on every worker, while the other workers keep the library busy
                 check_relabelling(run);
